@@ -142,6 +142,11 @@ def solve_once(modname, fname, kwargs, pass_solver):
     try:
         if out is not None and out[1] is not None:
             r["theo"], r["hastheo"] = proj.fix(out[1]), 1
+        if not exc and st in ("unbounded", "infeasible"):
+            # a certificate, not a solver failure: the model has no finite worst case at a point where the
+            # docstring states one
+            r.update(status="unbounded", why="solver status " + st)
+            return r
         if exc or out is None or out[0] is None or st != "optimal":
             r.update(status="inconclusive", why=exc or ("solver status " + str(st)))
             return r
